@@ -342,6 +342,8 @@ class Walker(object):
                 self.do('unsubscribe %d %s' % (p, rng.choice(['i:5', 'n'])))
             elif c == 4:
                 self.do('publish %d %s b:00 1 0' % (p, rng.choice(['n', 'i:3'])))
+            elif rng.random() < 0.3:
+                self.do(rng.choice(['subscribe %d l: 0', 'unsubscribe %d L:']) % p)       # empty topic lists
             else:
                 self.do('subscribe %d l:%s,%d 0' % (p, s_tok('t').replace(':', '='), rng.choice([3, -1, 2])))
 
